@@ -17,6 +17,7 @@ type Block = cfg.Block
 type Graph struct {
 	nilUse map[*ast.Ident]*[2]bool // nilAtUse cache (nil entry: being computed)
 	defCache map[defKey]defVal
+	signFlags map[types.Object]bool // found-index variables (-1 or non-negative), see boolFlags
 	Fn          *Fn
 	C           *cfg.CFG
 	Blocks      []*cfg.Block // live blocks
